@@ -23,3 +23,9 @@ package tchannel
 //@   label ping-on-a-draining-connection-is-not-a-protocol-error
 //@   atcall protocolError lastseen(c) == connectionClosed
 //@   property C07
+
+// (relay file) relay admission: a call that was admitted (pending count taken)
+// and is then given up releases the count -- a count that is never released
+// keeps the connection, and with it the channel, from ever reaching closed.
+//@ func (r *Relayer) handleCallReq(f *lazyCallReq) (shouldRelease bool, err error)
+//@   property C07
